@@ -953,6 +953,27 @@ for rel, tys in (("chain.rs", ["Chain", "ChainState"]), ("take.rs", ["Take"]), (
 for rel, tys in (("pipe.rs", ["Pipe"]), ("unit_pipe.rs", ["UnitPipe"])):
     derived_clone("C01", REPO + "/crates/pipes/src/", rel, tys)
 
+# ---- C19: the audited unsafe surface --------------------------------------------------------------------
+# Everything in the windowed filters except Median::default is safe Rust, where "every owned value is dropped exactly
+# once, never read after a drop or before initialisation" is rustc's ownership discipline - unless the code leaks
+# deliberately (mem::forget, ManuallyDrop, Box::leak) or uses unsafe operations.  The obligation pins the unsafe surface of
+# each file (comments and the test module stripped) to what was audited: `unsafe fn state_mut` (a plain reference), the
+# median's `unsafe fn` helpers and their `unsafe { self.helper() }` call sites (no unsafe OPERATION inside: their bodies are
+# translated, section 4.2b), and the one MaybeUninit initialisation loop of Median::default (modelled: Ledger.uninit_write,
+# theorem C19_uninit_loop_initialises, node formula translated).  Any new unsafe / raw-pointer / forget-like token breaks it.
+UNSAFE_TOK = {"unsafe": r"\bunsafe\b", "MaybeUninit": r"MaybeUninit", "assume_init": r"assume_init",
+              "raw pointer operation": r"\.read\(\)|\.write\(|ptr::|as_ptr|as_mut_ptr|NonNull|\*const|\*mut",
+              "forget / leak / unchecked": r"\bforget\b|ManuallyDrop|\bleak\b|transmute|from_raw|into_raw|drop_in_place|set_len|get_unchecked|zeroed|\bunion\b"}
+UNSAFE_EXPECT = {"median.rs": (21, 4, 1, 4, 0), "mean/mean.rs": (1, 0, 0, 0, 0), "bounds/max.rs": (1, 0, 0, 0, 0), "bounds/min.rs": (1, 0, 0, 0, 0), "bounds.rs": (1, 0, 0, 0, 0),
+                 "convolve.rs": (1, 0, 0, 0, 0), "delay.rs": (1, 0, 0, 0, 0)}
+for rel_, exp_ in UNSAFE_EXPECT.items():
+    ASSERTS.setdefault("C19", []).append(dict(name="unsafe_surface_" + rel_.replace("/", "_").replace(".rs", ""), file=F + rel_, strip=True,
+                                               counts={rx_: n_ for (k_, rx_), n_ in zip(UNSAFE_TOK.items(), exp_)},
+                                               message="the unsafe surface of %s changed (expected occurrences of unsafe / MaybeUninit / assume_init / raw pointer operations / forget-like calls: %s)" % (rel_, exp_)))
+
+# C19 re-checks the bodies of the windowed filters as well (its argument needs them to be the audited, safe code)
+ENTRIES["C19"] = list(ENTRIES["C02"]) + [e_ for e_ in ENTRIES["C03"] if e_["name"] == "moving_mean"] + list(ENTRIES["C04"]) + [e_ for e_ in ENTRIES["C05"] if e_["name"] in ("convolve", "delay")]
+
 # ---- constants compiled into macro invocations ---------------------------------------------------------
 CONSTS = {"C18": [dict(name="hampel_factor", file=F + "hampel.rs", regex=r"impl_hampel_filter!\(\s*(f32|f64)\s*=>\s*([0-9][0-9_]*\.[0-9_]*)\s*\)", expect=2,
                        lemma="From Coq Require Import QArith Qcanon.\nFrom Signalo Require Import Model.Hampel.\nLemma hampel_factor_%(k)s : Q2Qc (%(q)s) = mad_factor.\nProof. apply Qc_is_canon. reflexivity. Qed.\n")]}
@@ -1178,12 +1199,16 @@ def regenerate(pid, ROOT, BUILD):
         try:
             import tables
             txt = tables.strip_comments(open(a["file"]).read()) if False else open(a["file"]).read()
-            ok_ = all(re.search(rx, txt) for rx in a["must"]) and not any(re.search(rx, txt) for rx in a["mustnot"])
+            if a.get("strip"):
+                from rs2coq import strip_comments as _sc
+                txt = _sc(txt).split("#[cfg(test)]")[0]
+            ok_ = all(re.search(rx, txt) for rx in a.get("must", [])) and not any(re.search(rx, txt) for rx in a.get("mustnot", [])) \
+                  and all(len(re.findall(rx, txt)) == n_ for rx, n_ in (a.get("counts") or {}).items())
         except OSError:
             ok_ = False
         if ok_: info["discharged"] += 1
         else:
-            info["failed"].append(a["name"]); info.setdefault("logs", {})[a["name"]] = "source assertion failed: Clone is no longer (only) derived for this type in %s" % a["file"]
+            info["failed"].append(a["name"]); info.setdefault("logs", {})[a["name"]] = "source assertion failed: " + a.get("message", "Clone is no longer (only) derived for this type in %s" % a["file"])
         info["bodies"][a["name"]] = "assertion" if ok_ else "assertion FAILED"
     def coqc(nf):
         p = subprocess.run(["coqc", "-noglob", "-Q", COQ, "Signalo", os.path.basename(nf[1])], cwd=gen, stdout=subprocess.PIPE, stderr=subprocess.STDOUT, text=True, timeout=600)
